@@ -382,10 +382,13 @@ class StorageFrontend:
         self, lineage: dict, desired_lineage: dict, fuzzy_for: tuple, fuzzy_for_options: tuple
     ):
         """Return if lineage matches desired_lineage given ignore options."""
+        # A lineage read back from (json) metadata has lists where the original has tuples
         if not (fuzzy_for or fuzzy_for_options):
-            return lineage == desired_lineage
+            return strax.hashablize(lineage) == strax.hashablize(desired_lineage)
         args = [fuzzy_for, fuzzy_for_options]
-        return self._filter_lineage(lineage, *args) == self._filter_lineage(desired_lineage, *args)
+        return strax.hashablize(self._filter_lineage(lineage, *args)) == strax.hashablize(
+            self._filter_lineage(desired_lineage, *args)
+        )
 
     @staticmethod
     def _filter_lineage(lineage, fuzzy_for, fuzzy_for_options):
